@@ -83,6 +83,14 @@ func gen(t *rapid.T) Case {
 	lists := append(append([]string{}, c.DriverList...), c.OpList...)
 
 	for i := 0; i < n; i++ {
+		if i > 0 && rapid.IntRange(0, 3).Draw(t, "repeat") == 0 {
+			// the same line again, answered identically (e.g. the same setting rejected under two
+			// different interfaces): members are distinct even when input and output are equal
+			c.Cmds = append(c.Cmds, c.Cmds[rapid.IntRange(0, i-1).Draw(t, "repeatOf")])
+
+			continue
+		}
+
 		cmd := Cmd{Text: sim.GenCommand(t)}
 
 		nl := rapid.IntRange(0, 4).Draw(t, "nLines")
